@@ -26,7 +26,10 @@ RULE = ('group cases = (constructor, parameter): the table is built by numqi, ch
         'constructor repeated at the end and compared with its first result; every array-returning function called, its result '
         'edited in place by the caller, and called again; refilled work buffers (table, representation, shape); the same table / '
         'representation / shape as int32, float64, complex128, Fortran, strided and transposed views, lists and tuples, numpy-integer '
-        'parameters; every contract snapshots its array arguments and reports <fn>/mutates-argument')
+        'parameters; every contract snapshots its array arguments and reports <fn>/mutates-argument. API-form cases (shard api-forms): every '
+        'monitored function positionally vs by keyword, defaults passed explicitly, flags as bool / np.bool_ / 0 / 1, sizes as python / numpy '
+        'integers, smallest admissible (S2, A2, D3, C2, (Z/3)*, N=1, shape (1,)) and largest quick sizes; exact equality between the forms; '
+        'the parameter order of the shipped API is pinned (SIGNATURES)')
 EXHAUSTIVE = {'quick': True, 'thorough': True}
 EXHAUSTIVE_DOMAINS = {
     'quick': ['tables S2..S4, A2..A4, D3..D8, C2..C12, (Z/n)* n=3..24, V4, Q8: all N^2 pairs and N^3 triples each',
@@ -50,7 +53,7 @@ DECIDING = ['numqi.group._symmetric.get_symmetric_group_cayley_table', 'numqi.gr
             'numqi.group._symmetric.get_sym_group_num_irrep', 'numqi.group._symmetric.get_sym_group_young_diagram',
             'numqi.group._symmetric.get_all_young_tableaux', 'numqi.group._symmetric.get_hook_length',
             'reduce/regular-representation-with-known-table', 'reduce/certified-representation-of-known-group',
-            'workload/sum-f2==N!', 'workload/history']
+            'workload/sum-f2==N!', 'workload/history', 'workload/api-forms']
 TECHNIQUE = ('postconditions on the real group/partition/tableau functions against integer-exact references (all-triples '
              'associativity, conjugacy classes, independently built S_n/A_n/D_n/C_n/(Z/n)*/V4/Q8 for isomorphism invariants, '
              'three partition recurrences, hook lengths from the definition, corner-removal tableau count)')
@@ -61,12 +64,24 @@ TOL_U = 1e-7     # unitarity / homomorphism (DESIGN: 1e-7)
 TOL_CHI = 1e-6   # character inner products
 MAX_TABLE = 256  # associativity over all triples up to this order
 
+# parameter order of the shipped API (docstring "Parameters:" sections), pinned as the specification for positional calls
+SIGNATURES = {
+    '_symmetric.get_symmetric_group_cayley_table': ['n', 'alternating'], '_internal.get_klein_four_group_cayley_table': [],
+    '_internal.get_dihedral_group_cayley_table': ['n'], '_internal.get_cyclic_group_cayley_table': ['n'],
+    '_internal.get_multiplicative_group_cayley_table': ['n'], '_internal.get_quaternion_cayley_table': [],
+    '_internal.cayley_table_to_left_regular_form': ['index_tuple'], '_internal.reduce_group_representation': ['np0', 'zero_eps'],
+    '_internal.get_character_and_class': ['irrep_list', 'zero_eps'],
+    '_symmetric.get_sym_group_num_irrep': ['N', 'return_full'], '_symmetric.get_sym_group_young_diagram': ['N'],
+    '_symmetric.get_all_young_tableaux': ['young', 'check'], '_symmetric.get_hook_length': ['*int_tuple', 'check'],
+    '_symmetric.get_young_diagram_transpose': ['np0', 'check'], '_symmetric.get_young_diagram_mask': ['young', 'check'],
+}
+
 GHOST = {'table': None}   # producer-registered certificate: "the next representation is one of the group with this table"
 
 
 def shards(tier, seed):
     ret = [{'name': 'table-S5'}, {'name': 'table-A5'}, {'name': 'tables'}, {'name': 'partitions'}, {'name': 'tableaux'},
-           {'name': 'symext'}, {'name': 'histories'}]
+           {'name': 'symext'}, {'name': 'histories'}, {'name': 'api-forms'}]
     if tier == 'thorough':
         ret = [{'name': 'tableaux-N14', 'timeout_s': 3600}, {'name': 'tableaux-N13'}, {'name': 'partitions-large'}, {'name': 'tableaux-N12'}, {'name': 'repo-tests'},
                {'name': 'tables-large-dihedral'}, {'name': 'tables-large-cyclic'}, {'name': 'tables-large-multiplicative'},
@@ -94,9 +109,16 @@ def _unchanged(cur, snp):
 
 # ============================================================================================ monitors
 def install(ctx, numqi):
+    import inspect
     GI = numqi.group._internal
     GS = numqi.group._symmetric
     state = {'depth': 0, 'table': None}
+    for full, expected in SIGNATURES.items():
+        modname, fname = full.split('.')
+        f = getattr(getattr(numqi.group, modname), fname)
+        got = [('*' + q.name) if q.kind is q.VAR_POSITIONAL else q.name for q in inspect.signature(f).parameters.values()]
+        ctx.check(got == expected, f'{fname}/signature-changed', f'parameter order of {fname} differs from the documented one (positional callers break)',
+                  {'got': got, 'documented': expected})
     ref_inv_cache = {}
     worst = ctx.extra.setdefault('worst', {'unitarity': 0.0, 'homomorphism': 0.0, 'character_gram': 0.0, 'decomposition': 0.0})
 
@@ -375,7 +397,8 @@ def install(ctx, numqi):
         return np.array([[j < r for j in range(shape[0])] for r in shape], dtype=bool)
 
     def pre_arg0(c):
-        return _snap(c.args[0]) if c.args else None
+        a = c.args[0] if c.args else (c.kwargs.get('young', c.kwargs.get('np0')))
+        return _snap(a)
 
     def post_tableaux(c):
         arg_unmodified('tableaux', 'young', c.arg(0, 'young'), c.snap)
@@ -681,7 +704,10 @@ def run(ctx, shard):
             with contextlib.redirect_stdout(io.StringIO()):
                 G.print_all_young_tableaux(5)
     elif name == 'histories':
+        # call-order sensitive: the A_n-before-S_n order must be the first thing this process does
         _histories(ctx, numqi, G, rng, group_case, shape_case, partition_cases)
+    elif name == 'api-forms':
+        _api_forms(ctx, numqi, G, rng)
     elif name == 'repo-tests':
         ctx.workload('repo-tests')
         _run_repo_tests(ctx, ['tests/tests_group/test_group_basic.py', 'tests/tests_group/test_group_symmetric.py',
@@ -721,6 +747,80 @@ def _scribble(a):
             x[...] = x[(slice(None, None, -1),) * x.ndim] + 1
             k += 1
     return k
+
+
+def _api_forms(ctx, numqi, G, rng):
+    """every documented way of calling the monitored functions: positional vs keyword, default vs explicit, flags as
+    bool / np.bool_ / 0 / 1, sizes as python / numpy integers, smallest admissible and largest quick sizes. Every call is judged
+    by its contract; the relational checks compare the forms with each other (exact equality: the functions are deterministic)."""
+    ctx.workload('corner')
+
+    def forms(fn, base, variants, desc):
+        """variants: {label: thunk}; labels containing '=' are keyword forms, 'default' explicit defaults, others value-type forms"""
+        ctx.set_case({'op': 'api-forms', 'fn': fn, **desc})
+        ctx.case('api', fn, desc)
+        with ctx.guard(f'api/{fn}'):
+            a = base()
+            for label, thunk in variants.items():
+                b = thunk()
+                kind = ('explicit-default-differs' if label.startswith('default') else
+                        'positional-call-differs-from-keyword-call' if '=' in label else 'argument-type-dependent')
+                ctx.check(_eq(a, b), f'{fn}/{kind}', f'{fn}: two documented ways of passing the same arguments give different results',
+                          lambda: {**desc, 'form': label, 'first_shapes': [np.shape(x) for x in _arrays(a)], 'this_shapes': [np.shape(x) for x in _arrays(b)]},
+                          point='workload/api-forms')
+            return a
+        return None
+
+    S = G.get_symmetric_group_cayley_table
+    for n in (2, 3, 4, 5):   # smallest admissible .. largest quick
+        forms('table/symmetric', lambda: S(n), {
+            'default alternating=False positional': lambda: S(n, False), 'alternating=': lambda: S(n, alternating=False), 'n=': lambda: S(n=n),
+            'alternating=,n=': lambda: S(alternating=False, n=n), 'np.False_': lambda: S(n, np.False_), '0': lambda: S(n, 0),
+            'np.int64 n': lambda: S(np.int64(n)), 'np.uint8 n': lambda: S(np.uint8(n))}, {'n': n, 'alternating': False})
+        forms('table/symmetric', lambda: S(n, True), {
+            'alternating=': lambda: S(n, alternating=True), 'alternating=,n=': lambda: S(alternating=True, n=n), 'np.True_': lambda: S(n, np.True_),
+            '1': lambda: S(n, 1), 'np.int32 n': lambda: S(np.int32(n), True)}, {'n': n, 'alternating': True})
+    for fn, f, ns in [('table/dihedral', G.get_dihedral_group_cayley_table, (3, 4, 12)), ('table/cyclic', G.get_cyclic_group_cayley_table, (2, 3, 12)),
+                      ('table/multiplicative', G.get_multiplicative_group_cayley_table, (3, 4, 8, 24))]:
+        for n in ns:
+            # (no narrow unsigned types here: these three do not normalise n with int(); np.uint8(24) overflows inside (x*y)%n - outside the documented `n (int)`)
+            forms(fn, lambda: f(n), {'n=': lambda: f(n=n), 'np.int64 n': lambda: f(np.int64(n)), 'np.int32 n': lambda: f(np.int32(n))},
+                  {'n': n})
+    for nm, t in [('C2', rf.ref_cyclic(2)), ('S3', rf.ref_symmetric(3)), ('Q8', rf.ref_quaternion()), ('S4', rf.ref_symmetric(4))]:
+        L = forms('left_regular', lambda: G.cayley_table_to_left_regular_form(t), {'index_tuple=': lambda: G.cayley_table_to_left_regular_form(index_tuple=t)}, {'group': nm})
+        if L is None:
+            continue
+        R = G.reduce_group_representation
+        ir = forms('reduce', lambda: R(L), {'np0=': lambda: R(np0=L), 'default zero_eps positional': lambda: R(L, 1e-7), 'zero_eps=': lambda: R(L, zero_eps=1e-7),
+                                            'np0=,zero_eps=': lambda: R(zero_eps=1e-7, np0=L), 'np.float64 zero_eps': lambda: R(L, np.float64(1e-7))}, {'group': nm})
+        if isinstance(ir, list):
+            C = G.get_character_and_class
+            forms('character_and_class', lambda: list(C(ir)), {'irrep_list=': lambda: list(C(irrep_list=ir)), 'default zero_eps positional': lambda: list(C(ir, 1e-7)),
+                                                               'zero_eps=': lambda: list(C(ir, zero_eps=1e-7))}, {'group': nm})
+    NI = G.get_sym_group_num_irrep
+    for N in (1, 2, 3, 4, 5, 30, 60, 200):
+        forms('num_irrep', lambda: NI(N), {'default return_full=False positional': lambda: NI(N, False), 'return_full=': lambda: NI(N, return_full=False), 'N=': lambda: NI(N=N),
+                                           'np.False_': lambda: NI(N, np.False_), '0': lambda: NI(N, 0), 'np.int64 N': lambda: NI(np.int64(N)), 'np.uint8 N': lambda: NI(np.uint8(N))},
+              {'N': N, 'return_full': False})
+        forms('num_irrep', lambda: list(NI(N, True)), {'return_full=': lambda: list(NI(N, return_full=True)), 'return_full=,N=': lambda: list(NI(return_full=True, N=N)),
+                                                       'np.True_': lambda: list(NI(N, np.True_)), '1': lambda: list(NI(N, 1)), 'np.int32 N': lambda: list(NI(np.int32(N), True))},
+              {'N': N, 'return_full': True})
+    YD = G.get_sym_group_young_diagram
+    for N in (1, 2, 3, 4, 5, 30):
+        forms('young_diagram', lambda: YD(N), {'N=': lambda: YD(N=N), 'np.int64 N': lambda: YD(np.int64(N)), 'np.int32 N': lambda: YD(np.int32(N))}, {'N': N})
+    T, H, TR, M = G.get_all_young_tableaux, G.get_hook_length, G.get_young_diagram_transpose, G.get_young_diagram_mask
+    for sh in [(1,), (2,), (1, 1), (2, 1), (2, 2), (3, 1, 1), (3, 2, 1), (2, 2, 1, 1), (4, 3, 2, 1), (10,), (1,) * 10, (5, 5)]:
+        d = {'young': list(sh)}
+        forms('tableaux', lambda: T(sh), {'default check=True positional': lambda: T(sh, True), 'check=': lambda: T(sh, check=True), 'young=': lambda: T(young=sh),
+                                          'check=False': lambda: T(sh, check=False), 'check=,young=': lambda: T(check=False, young=sh), 'np.True_': lambda: T(sh, np.True_),
+                                          '1': lambda: T(sh, 1), '0': lambda: T(sh, 0), 'np.False_': lambda: T(sh, np.False_)}, d)
+        forms('hook_length', lambda: H(*sh), {'default check=True': lambda: H(*sh, check=True), 'check=False': lambda: H(*sh, check=False),
+                                              'np.True_': lambda: H(*sh, check=np.True_), '0': lambda: H(*sh, check=0), '1': lambda: H(*sh, check=1),
+                                              'np.int64 rows': lambda: H(*[np.int64(x) for x in sh]), 'np.uint8 rows': lambda: H(*[np.uint8(x) for x in sh])}, d)
+        forms('young_transpose', lambda: TR(sh), {'default check=True positional': lambda: TR(sh, True), 'check=': lambda: TR(sh, check=True), 'np0=': lambda: TR(np0=sh),
+                                                  'check=False': lambda: TR(sh, check=False), 'np.False_': lambda: TR(sh, np.False_), '0': lambda: TR(sh, 0)}, d)
+        forms('young_mask', lambda: M(sh), {'default check=True positional': lambda: M(sh, True), 'check=': lambda: M(sh, check=True), 'young=': lambda: M(young=sh),
+                                            'check=False': lambda: M(sh, check=False), 'np.True_': lambda: M(sh, np.True_), '1': lambda: M(sh, 1)}, d)
 
 
 def _histories(ctx, numqi, G, rng, group_case, shape_case, partition_cases):
